@@ -4,6 +4,7 @@ dense; the assignment does not depend on the insertion order; slave copies are n
 corners that do not carry exactly the same slave patches.
 -/
 import CBV.Lemmas.C05
+import CBV.Lemmas.C05First
 import Mathlib.Data.String.Basic
 
 set_option linter.unusedSectionVars false
@@ -270,5 +271,80 @@ example (v₁ v₂ : Vertex Nat)
     whose first vertex is a slave copy creates yet another vertex -/
 example : (runAddsOpt (fun (a b : Nat) => a == b) {} [(0, some ["s"]), (0, none), (0, none)]).2.map (·.index)
     = [0, 1, 2] := by decide
+
+/-! ### without the clustering assumption: what `add` guarantees on near-chains (first-match semantics)
+
+The theorems above assume that closeness is an equivalence on the points that occur (separated clusters).
+The following ones need only that the test is reflexive and symmetric — which `norm(p − q) < TOL` is on
+all of space (`closeV3_rs`) — so for the protocol instance they hold for *every* assembly. -/
+
+/-- **T_C05_first_match.** For every assembly (any points, near-chains included): every corner is handed the
+    *first* vertex of the final registry — in creation order — that lies within the tolerance of the corner
+    and was created for the same sorted slave-patch set (`findDuplicated` on the final list); in particular
+    the vertex lies within the tolerance of the corner. -/
+theorem T_C05_first_match {S : P → Prop} (hc : CloseRSOn close S) (slaves : List N) (ops : List (Op P N))
+    (hS : ∀ op ∈ ops, ∀ p ∈ op.pts, S p) :
+    (assemble close slaves {} ops).2.length = ops.length ∧
+    ∀ b ∈ ops.zip (assemble close slaves {} ops).2,
+      b.2.length = (cornerCalls slaves b.1).length ∧
+      ∀ x ∈ (cornerCalls slaves b.1).zip b.2,
+        findDuplicated close (assemble close slaves {} ops).1 x.1.1 (sort x.1.2) = some x.2 ∧
+        close x.1.1 x.2.pos = true := by
+  obtain ⟨_, _, k3, k4⟩ := assemble_first close hc slaves ops (inv_empty close S) hS
+  refine ⟨k3, fun b hb => ⟨(k4 b hb).1, fun x hx => ?_⟩⟩
+  obtain ⟨⟨d, _, hdv, hk, _⟩, hf⟩ := (k4 b hb).2 x hx
+  exact ⟨hf, hdv ▸ hk⟩
+
+/-- **T_C05_first_match_separated.** For every assembly: the vertices are exactly the registry entries, numbered
+    by position, and any two of them are either not within the tolerance of each other or were created for
+    different slave-patch sets. -/
+theorem T_C05_first_match_separated {S : P → Prop} (hc : CloseRSOn close S) (slaves : List N) (ops : List (Op P N))
+    (hS : ∀ op ∈ ops, ∀ p ∈ op.pts, S p) :
+    (assemble close slaves {} ops).1.duplicated.map Dup.vertex = (assemble close slaves {} ops).1.vertices ∧
+    (∀ (i : Nat) (d : Dup P N), (assemble close slaves {} ops).1.duplicated[i]? = some d → d.vertex.index = i) ∧
+    (assemble close slaves {} ops).1.duplicated.Pairwise
+      (fun d e => ¬ (close d.vertex.pos e.vertex.pos = true ∧ d.patches = e.patches)) := by
+  obtain ⟨hi, _⟩ := assemble_first close hc slaves ops (inv_empty close S) hS
+  exact ⟨hi.reg, hi.dense, hi.distinct⟩
+
+/-- the same for a run of direct `add(point, list)` calls -/
+theorem T_C05_first_match_adds {S : P → Prop} (hc : CloseRSOn close S) (calls : List (P × List N))
+    (hS : ∀ c ∈ calls, S c.1) :
+    (∀ x ∈ calls.zip (runAdds close {} calls).2,
+      findDuplicated close (runAdds close {} calls).1 x.1.1 (sort x.1.2) = some x.2 ∧ close x.1.1 x.2.pos = true) ∧
+    (runAdds close {} calls).1.duplicated.Pairwise
+      (fun d e => ¬ (close d.vertex.pos e.vertex.pos = true ∧ d.patches = e.patches)) := by
+  obtain ⟨hi, _, _, k4⟩ := runAdds_first close hc calls (inv_empty close S) hS
+  refine ⟨fun x hx => ?_, hi.distinct⟩
+  obtain ⟨⟨d, _, hdv, hk, _⟩, hf⟩ := k4 x hx
+  exact ⟨hf, hdv ▸ hk⟩
+
+/-- **T_C05_first_match_real.** The protocol instance (`norm(p − q) < TOL` on exact coordinates, `TOL` regenerated
+    from the source) satisfies the hypothesis on all of space: the two theorems hold for every assembly. -/
+theorem T_C05_first_match_real (slaves : List String) (ops : List (Op V3 String)) :
+    (∀ b ∈ ops.zip (assemble closeV3 slaves {} ops).2,
+      ∀ x ∈ (cornerCalls slaves b.1).zip b.2,
+        findDuplicated closeV3 (assemble closeV3 slaves {} ops).1 x.1.1 (sort x.1.2) = some x.2 ∧
+        closeV3 x.1.1 x.2.pos = true) ∧
+    (assemble closeV3 slaves {} ops).1.duplicated.Pairwise
+      (fun d e => ¬ (closeV3 d.vertex.pos e.vertex.pos = true ∧ d.patches = e.patches)) :=
+  ⟨fun b hb => ((T_C05_first_match closeV3 closeV3_rs slaves ops (fun _ _ _ _ => trivial)).2 b hb).2,
+   (T_C05_first_match_separated closeV3 closeV3_rs slaves ops (fun _ _ _ _ => trivial)).2.2⟩
+
+/-- a near-chain: `a`–`b` and `b`–`c` are 0.6·TOL apart, `a`–`c` 1.2·TOL -/
+def chainA : V3 := ⟨0, 0, 0⟩
+def chainB : V3 := ⟨6 / 100000000, 0, 0⟩
+def chainC : V3 := ⟨12 / 100000000, 0, 0⟩
+
+/-- **T_C05_near_chain_order** (a concrete witness, by evaluation; replayed on the implementation by the
+    `chain` cases of the check). On a near-chain closeness is not transitive, and the result of `add` depends on
+    the insertion order: in the order a, b, c the points get the vertices 0, 0, 1 (two vertices; `b` and `c`,
+    although within the tolerance of each other, are separated), in the order b, a, c they all get vertex 0.
+    Hence "one vertex per distinct point" presupposes separated clusters; `T_C05_key` cannot be had without it. -/
+theorem T_C05_near_chain_order :
+    closeV3 chainA chainB = true ∧ closeV3 chainB chainC = true ∧ closeV3 chainA chainC = false ∧
+    (runAdds closeV3 {} [(chainA, ([] : List String)), (chainB, []), (chainC, [])]).2.map (·.index) = [0, 0, 1] ∧
+    (runAdds closeV3 {} [(chainB, ([] : List String)), (chainA, []), (chainC, [])]).2.map (·.index) = [0, 0, 0] := by
+  decide +kernel
 
 end CBV.C05
